@@ -532,10 +532,8 @@ def external_listings(ctx, res):
     # specification on what is derived from each listing when the others were read before it in the same process:
     # every pair of the BPSEQ joins two nucleotides that a cWW line of THIS listing names
     import ast
-    import multiprocessing as mp
-    from core import _run_sequence
-    with mp.get_context("fork").Pool(1) as pool:
-        seq = pool.map(_run_sequence, [(real_external, items)])[0]
+    from core import _run_sequence, fork_map
+    seq = fork_map(_run_sequence, [(real_external, items)], nproc=1)[0]
     for text, r in zip(items, seq):
         try:
             val = ast.literal_eval(ast.literal_eval(r))
